@@ -64,12 +64,23 @@ def decode_all(rec):
 
 class NoAuth(asyncssh.SSHServer):
     last_conn = None
+    lost = []
 
     def connection_made(self, conn):
         NoAuth.last_conn = conn
 
+    def connection_lost(self, exc):
+        NoAuth.lost.append(exc)
+
     def begin_auth(self, username):
         return False
+
+
+class _Cli(asyncssh.SSHClient):
+    lost = []
+
+    def connection_lost(self, exc):
+        _Cli.lost.append(exc)
 
 
 SRV_RX = []
@@ -101,7 +112,9 @@ def run_session(payloads, client_kw=None, server_kw=None, chunker=None,
                process_factory=_echo, encoding=None)
     skw.update(server_kw or {})
     ckw = dict(known_hosts=None, config=None, client_keys=None, username='u',
-               encoding=None)
+               encoding=None, client_factory=_Cli)
+    del NoAuth.lost[:]
+    del _Cli.lost[:]
     ckw.update(client_kw or {})
     if rekey_bytes:
         skw['rekey_bytes'] = rekey_bytes
@@ -159,6 +172,7 @@ def run_session(payloads, client_kw=None, server_kw=None, chunker=None,
     except BaseException:               # pylint: disable=broad-except
         pass
     out['srv_rx'] = b''.join(SRV_RX)
+    out['lost'] = {'s': list(NoAuth.lost), 'c': list(_Cli.lost)}
     out['loop_exceptions'] = [str(c.get('exception') or c.get('message'))
                               for c in loop.exceptions]
     if 'chunkers' in out:
